@@ -88,6 +88,13 @@ def op (b : Bus) (ws : List String) : Bus × String :=
     match hexNat? a with
     | some a => (b, match b.route a with | some m => s!"m{toHex m}:{toHex a}" | none => "panic")
     | none => (b, "bad-op")
+  | ["T", bank, addr] =>
+    match hexNat? bank, hexNat? addr with
+    | some bank, some addr =>
+      (b, match b.read24 bank addr with
+          | some l => ",".intercalate (l.map (fun p => s!"m{toHex p.1}:{toHex p.2}"))
+          | none => "panic")
+    | _, _ => (b, "bad-op")
   | ["D", s, e, n] =>
     match hexNat? s, hexNat? e, hexNat? n with
     | some s, some e, some n =>
@@ -115,8 +122,11 @@ inductive Obj | nothing | alwaysErr | reader (r : Reader) | writer (w : Writer)
 structure St where
   img : Image
   size : Nat
-  obj : Obj
+  obj : Obj               -- the object in the current slot
   touched : List Nat      -- offsets written by accepted writes (newest first)
+  cur : Nat := 0
+  /-- the objects parked in the other slots (several readers / writers of one ROM are alive at the same time) -/
+  parked : Nat → Obj := fun _ => .nothing
 
 def errStr : Err → String
   | .none => "nil" | .eof => "EOF" | .unexpectedEOF => "UEOF"
@@ -163,13 +173,20 @@ def op (st : St) (ws : List String) : St × String :=
           s!"{toHex t.2.2.1} {errStr t.2.2.2}")
       | _ => (st, "noobj")
     | _, _ => (st, "bad-op")
+  | ["S", k] =>
+    match hexNat? k with
+    | some k =>
+      if k == st.cur then (st, "ok") else
+      let parked' : Nat → Obj := fun i => if i == st.cur then st.obj else st.parked i
+      ({ st with obj := st.parked k, cur := k, parked := parked' }, "ok")
+    | none => (st, "bad-op")
   | ["F"] =>
     let offs := (st.touched.reverse.eraseDups)
     (st, "mods " ++ ",".intercalate (offs.map (fun a => s!"{toHex a}={hex2 (st.img a)}")))
   | _ => (st, "bad-op")
 
 def run (size seed : Nat) (ops : List String) : String :=
-  let st0 : St := ⟨fun a => hash8 seed.toUInt64 a.toUInt32, size, .nothing, []⟩
+  let st0 : St := { img := fun a => hash8 seed.toUInt64 a.toUInt32, size := size, obj := .nothing, touched := [] }
   let (_, outs) := ops.foldl (fun (acc : St × List String) o =>
     let ws := (o.splitOn " ").filter (· ≠ "")
     if ws.isEmpty then acc else
